@@ -62,6 +62,16 @@ def _const_truth(test):
     return None
 
 
+def _cannot_raise(st):
+    """statements that cannot raise (no implicit exception edge out of a try body): `pass`, and the assignment of a
+    constant to plain local names"""
+    if isinstance(st, ast.Pass):
+        return True
+    if isinstance(st, ast.Assign) and isinstance(st.value, ast.Constant) and all(isinstance(t, ast.Name) for t in st.targets):
+        return True
+    return False
+
+
 class CFG:
     def __init__(self, func):
         self.func = func
@@ -95,7 +105,7 @@ class CFG:
             self.nodes[a].succ.append((b, label))
 
     def _implicit(self, n, ctx):
-        if ctx.implicit is not None:
+        if ctx.implicit is not None and not _cannot_raise(self.nodes[n].ast):
             self._edge(n, ctx.implicit(), "exc")
 
     def _seq(self, stmts, nxt, ctx):
